@@ -808,7 +808,7 @@ def _name_deviation(cli, pols, model, who, groups, filters, got, req, full):
               % (req, filters, full, sorted(must), sorted(may), sorted(must - got),
                  sorted(got - must - may)))
     names = [f[0] for f in filters]
-    relevant = [fl for fl, attr in (("sens", "Sensitive"), ("nametype", "Name")) if attr in names]
+    relevant = [fl for fl, attr in (("nametype", "Name"), ("sens", "Sensitive")) if attr in names]
     for r in range(1, len(relevant) + 1):
         for combo in itertools.combinations(relevant, r):
             m2, y2 = model_sets(pols, model, who, groups, filters, combo)
